@@ -46,7 +46,7 @@ def equity_and_used(w, bal):
 
 
 def borrow(ctx, path="create_loan", lend="margin", earlier=1, margin_req="0.5", min_interest="0", kind="limit",
-           side="buy", lend_quote="USD", req_overrides=None, npairs=2):
+           side="buy", lend_quote="USD", req_overrides=None, npairs=2, rebar=False):
     if margin_req == "symbolic":
         margin_req = ctx.dec("margin_requirement", 2, lo=0, hi=300)
     init = {"BTC": Decimal(0)} if earlier == "short" else None
@@ -81,6 +81,12 @@ def borrow(ctx, path="create_loan", lend="margin", earlier=1, margin_req="0.5", 
         earlier = 0
     for n in range(earlier):
         w.create_loan("earlier%d" % n)
+    if rebar:
+        # prices move between the earlier loan and the request: the valuation must use the LAST closes
+        for i, pair in enumerate(w.pairs):
+            w.closes = CLOSES[pair.base_symbol]
+            w.feed_bar("rb%d" % i, pair_idx=i)
+        w.closes = None
     pre = w.balances()
     eq0, used0 = equity_and_used(w, pre)
     if bool(eq0 == 0):
@@ -135,6 +141,12 @@ def jobs(tier):
         js.append(Job("create_loan valued in BTC (inverse pair) earlier=%d" % earlier, "borrow",
                       dict(path="create_loan", margin_req="0.5", earlier=earlier, lend_quote="BTC", npairs=1),
                       validate_every=20, sample_every=50, max_paths=200000))
+    js.append(Job("create_loan valued in BTC after a price move", "borrow",
+                  dict(path="create_loan", margin_req="0.5", earlier=1, lend_quote="BTC", npairs=1, rebar=True),
+                  validate_every=20, sample_every=50, max_paths=200000, split=32))
+    js.append(Job("create_loan after a price move", "borrow",
+                  dict(path="create_loan", margin_req="0.5", earlier=1, rebar=True), validate_every=20,
+                  sample_every=50, max_paths=200000, split=32))
     js.append(Job("NoLoans", "borrow", dict(lend="none", earlier=0), validate_every=10, sample_every=20))
     if tier == "thorough":
         for earlier in (0, 1):
